@@ -90,6 +90,10 @@ def state(m):
                      m.num_variable_interactions(), list(map(int, cs)), list(map(float, lb)), sorted(zip(map(int, ir), map(int, ic), map(float, qb)))))
     return repr(qstate(m))
 
+def cy_state(m):
+    L = list(m.variables)
+    return [L, [[m.vartype(v).name, float(m.lower_bound(v)), float(m.upper_bound(v))] for v in L]]
+
 def canon(m):
     """a constrained model up to the internal variable order of its expressions (not kept by a file round trip)"""
     def ex(e):
@@ -177,6 +181,7 @@ for i, (kind, fmt, pre, bad, suf) in enumerate(cases):
     try:
         m = mk(kind)
         before = state(m)
+        cy_before = cy_state(m) if isinstance(m, dimod.ConstrainedQuadraticModel) else None
         # the same call with the first k valid elements only, each on its own fresh model
         prefixes = []
         for k in range(1, len(pre) + 1):
@@ -196,6 +201,19 @@ for i, (kind, fmt, pre, bad, suf) in enumerate(cases):
     except BaseException as e:
         raised = type(e).__name__ + ': ' + str(e)[:160]
     res['raised'] = raised
+    if '.add_variables(' in fmt and isinstance(m, dimod.ConstrainedQuadraticModel):
+        # the same call as data, for the Lean model of the loop (`CyCqm.Vars.addVariables`)
+        class Rec:
+            def add_variables(self, vartype, variables, *, lower_bound=None, upper_bound=None):
+                self.args = (dimod.as_vartype(vartype, extended=True).name, list(variables), lower_bound, upper_bound)
+        rec = Rec()
+        try:
+            exec(call, {'m': rec, 'dimod': dimod, 'np': np})
+            probe = dimod.ConstrainedQuadraticModel(); probe.add_variable(rec.args[0], 'probe')
+            res['cy'] = dict(args=[rec.args[0], [['s', v] if isinstance(v, str) else ['!'] for v in rec.args[1]], rec.args[2], rec.args[3]],
+                             dflt=[float(probe.lower_bound('probe')), float(probe.upper_bound('probe'))], before=cy_before)
+        except Exception as e:
+            res['cy'] = dict(error=repr(e))
     try:
         st = structure(m)
     except BaseException as e:
@@ -208,6 +226,8 @@ for i, (kind, fmt, pre, bad, suf) in enumerate(cases):
         res.update(result='unreadable', what=type(e).__name__ + ': ' + str(e)[:200]); out.append(res); continue
     if after != again:
         res.update(result='unreadable', what='two consecutive reads differ: ' + after[:300] + ' / ' + again[:300]); out.append(res); continue
+    if 'cy' in res and 'error' not in res['cy']:
+        res['cy']['after'] = cy_state(m)
     res['state'] = ('unchanged' if after == before else 'prefix-%d-of-%d' % (prefixes.index(after) + 1, len(pre)) if after in prefixes else 'other') if raised else 'accepted'
     if res['state'] == 'other':
         res['before'], res['after'] = before[:700], after[:700]
@@ -262,6 +282,9 @@ def cases():
                 f'm.add_variables({vt!r}, [%s]{kw})', [f"'n{j}'" for j in range(npre)], bad, ["'after'"])
         add(C, 'CQM.add_variables', f'{vt}{kw}: a new label given twice, then {why}', f'm.add_variables({vt!r}, [%s]{kw})', ["'n0'", "'n0'"], bad, ["'after'"])
         add(C, 'CQM.add_variables', f'{vt}{kw}: generator argument, {why} in the middle', f'm.add_variables({vt!r}, (v for v in [%s]){kw})', ["'n0'", "'n1'"], bad, ["'after'"])
+    for vt, kw, mid in [('BINARY', '', "'x'"), ('SPIN', '', "'s'"), ('INTEGER', ', upper_bound=7', "'i'"), ('INTEGER', ', lower_bound=0, upper_bound=7', "'i'"), ('INTEGER', '', "'i'")]:
+        add(C, 'CQM.add_variables', f'{vt}{kw}: new labels, then an existing label given consistently (a valid call), then new labels',
+            f'm.add_variables({vt!r}, [%s]{kw})', ["'n0'", "'n1'"], mid, ["'after'", "'n0'"])
     for site, fmt in [('CQM.add_constraint_from_iterable', "m.add_constraint_from_iterable([%s], '==', rhs=1, label='knew')"),
                       ('CQM.add_constraint_from_iterable', "m.add_constraint_from_iterable(iter([%s]), '<=', rhs=1)"),
                       ('CQM.set_objective', 'm.set_objective([%s])'),
@@ -378,6 +401,7 @@ def bulk_part(ctx):
     chunks = [cs[i::nchunk] for i in range(nchunk)]
     with ThreadPoolExecutor(max_workers=nchunk) as ex:
         batches = list(ex.map(lambda ch: run_batch(ch, env), chunks))
+    all_results = []
     for chunk, (results, err) in zip(chunks, batches):
         if results is None:
             with ThreadPoolExecutor(max_workers=4) as ex:
@@ -392,6 +416,7 @@ def bulk_part(ctx):
                     results.append(dict(result='crash'))
                 else:
                     results.append(r1[0])
+        all_results += list(zip(chunk, results))
         for (kind, site, cls, fmt, pre, bad, suf), res in zip(chunk, results):
             call = fmt % ', '.join(pre + [bad] + suf)
             ctx.case(('bulk', kind, call), nontrivial=True,
@@ -416,5 +441,34 @@ def bulk_part(ctx):
             elif res['result'] == 'unusable':
                 ctx.fail('property', f'{site} [{kind}]', cls + ' (valid calls fail afterwards)',
                          f'`{call}` on a fresh {kind} {how}; the valid follow-up calls (new variable, terms on it, read back) then failed: {res["what"]}', repro=repro, detail=res)
+    # (i) correspondence: `CQM.add_variables` against the Lean model of its loop (cppdriver `cyav`)
+    from fractions import Fraction as F
+    from harness.common import lab, rat, run_driver
+    lines, expect, what = [], [], []
+    def vtext(st):
+        L, info = st
+        return ((','.join(lab(v) for v in L) or '-') + ' ' + (','.join(f'{vt[0]}~{rat(F(lo))}~{rat(F(hi))}' for vt, lo, hi in info) or '-'))
+    for (kind, site, cls, fmt, pre, bad, suf), res in all_results:
+        cy = res.get('cy')
+        if not cy or 'after' not in cy:
+            continue
+        vt, elems, lo, hi = cy['args']
+        if vt in ('SPIN', 'BINARY'):
+            lo, hi = (-1, 1) if vt == 'SPIN' else (0, 1)
+        lbg, ubg = lo is not None, hi is not None
+        lo = cy['dflt'][0] if lo is None else lo
+        hi = cy['dflt'][1] if hi is None else hi
+        lines.append(f'cyav {vtext(cy["before"])} {vt} {rat(F(lo))} {rat(F(hi))} {int(lbg)} {int(ubg)} ' + (','.join('!' if e[0] == '!' else lab(e[1]) for e in elems) or '-'))
+        out = 'ok' if not res.get('raised') else {'ValueError': 'value', 'TypeError': 'type', 'RuntimeError': 'runtime'}.get(res['raised'].split(':')[0], res['raised'].split(':')[0])
+        expect.append(out + ' ' + vtext(cy['after']))
+        what.append((kind, site, cls, fmt % ', '.join(pre + [bad] + suf)))
+    if lines:
+        got = run_driver('cppdriver', lines)
+        ctx.corr_lines += len(lines)
+        for ln, e, g, (kind, site, cls, call) in zip(lines, expect, got, what):
+            ctx.tick('cyav:' + e.split(' ')[0])
+            if g != e:
+                ctx.fail('correspondence', f'{site} [{kind}] vs Lean CyCqm.Vars.addVariables', cls, f'`{call}`: line `{ln}`: implementation `{e}` model `{g}`')
+                break
     ctx.extra['bulk_seconds'] = round(time.time() - t0, 1)
     ctx.extra['bulk_cases'] = len(cs)
